@@ -7,7 +7,7 @@ import z3
 
 from .. import common, meprogs, relmodel, templates
 from ..driver import HOLDS, INCONCLUSIVE, UNDECIDED, VIOLATION
-from ..prog import (Env, IllTyped, add_abstract_leaf, build, cols_of, fmt, from_jsonable, ops_of, pyeval, pytree, sem_seq, sem_tree,
+from ..prog import (Env, IllFormed, IllTyped, add_abstract_leaf, build, cols_of, fmt, from_jsonable, ops_of, pyeval, pytree, sem_seq, sem_tree,
                     to_jsonable)
 from ..symx import Skip, explore
 from . import c14
@@ -240,7 +240,10 @@ def run_shape(shape, tier):
             p2 = identity_problem(rel, rel, env)
             obs.append(("leaves are the identical objects", p2 is None, {"problem": p2}))
             ref = sem_seq(prog, env)
-            got = sem_tree(rel, env)
+            try:
+                got = sem_tree(rel, env)
+            except IllFormed as e:
+                return obs + [("returned tree is well-formed", False, {"why": str(e), "tree": str(rel)})]
             through_sql = "sq" in repr(prog) or "'S'" in repr(prog)
             if through_sql or not (ref.ordered and got.ordered):
                 obs.append(("content (multiset)", relmodel.mset_eq(relmodel.unordered(got), relmodel.unordered(ref)), {"tree": str(rel)}))
@@ -314,10 +317,14 @@ def concrete_check(kind, base, prog, rows, bind):
         return True, "locked-node-not-identical", p2
     leafrows = {n: rows.get(n, []) for n in meprogs.LEAVES}
     exp = pyeval(prog, leafrows, bind, env.tags)
+    from ..prog import tree_problem
+    tp = tree_problem(rel)
+    if tp:
+        return True, "tree-ill-formed", tp[:160]
     try:
         got = pytree(rel, leafrows)
-    except Exception:  # noqa: BLE001
-        return False, "", None
+    except Exception as e:  # noqa: BLE001
+        return True, f"tree-not-evaluable:{type(e).__name__}", str(e)[:100]
     through_sql = "sq" in repr(prog) or "'S'" in repr(prog)
     same = common.canon(got) == common.canon(exp) if through_sql else got == exp
     if not same:
